@@ -125,6 +125,13 @@ Theorem C08_poll_add_failure_refuted :
   cb_after_last_poll_del (out (run_history_fx fixes_polladd_missing beh_none hist_polladd [])) = 2%nat.
 Proof. exact poll_add_failure_refuted. Qed.
 
+(* signal handles are raw pointers the API can not validate: using one after its registration was freed (second delete;
+   delete from inside the signal's own callback followed by a non-zero return) is outside the API contract - the model marks
+   it with EvUaf and the generators never do it.  With a handle whose registration exists no freed memory is touched *)
+Theorem C08_signal_live_handle_no_uaf : forall p g k h st s, sig_find h st = Some s ->
+  uaf (snd (signal_del h st)) = uaf st /\ uaf (snd (signal_mod p g k h st)) = uaf st.
+Proof. exact signal_ops_live_no_uaf. Qed.
+
 (* descriptor numbers closed and reused without poll_del: as found the stale entry shadows the new one (refuted, replayed on
    the real library); repaired (fixes/C08-poll-add-live-fd) an add of a number that still has a live entry is refused with
    -EEXIST and changes nothing, so an add that goes through never creates a second live entry for a number *)
@@ -180,6 +187,7 @@ Print Assumptions C08_signal_one_clone_per_delivery.
 Print Assumptions C08_run_ends_with_stop_turn.
 Print Assumptions C08_signal_del_refuted.
 Print Assumptions C08_poll_add_failure_refuted.
+Print Assumptions C08_signal_live_handle_no_uaf.
 Print Assumptions C08_fd_reuse_refuted.
 Print Assumptions C08_poll_add_refuses_live_fd.
 Print Assumptions C08_poll_add_ok_means_fresh_fd.
